@@ -21,15 +21,9 @@ CONSTANT MaxDepth
 VARIABLES u, last, depth
 vars == <<u, last, depth>>
 
-Opt2(r) == IF IsOK(r) THEN [ok |-> r.ok] ELSE [exc |-> "ValueError"]
-OptOf(f(_), x) == Opt2(f(x))
-\* the observation Level I derives from a value (the accessors the invariants below read)
-ObsM(x) ==
-  [val |-> [ok |-> <<x.scheme, x.netloc, x.path, x.query, x.fragment>>],
-   str |-> Opt2(Str(x)), scheme |-> [ok |-> x.scheme], raw_authority |-> [ok |-> x.netloc],
-   raw_path |-> [ok |-> RawPath(x)], raw_query_string |-> [ok |-> x.query], raw_fragment |-> [ok |-> x.fragment],
-   raw_user |-> Opt2(RawUser(x)), raw_password |-> Opt2(RawPassword(x)), raw_host |-> Opt2(RawHost(x)),
-   explicit_port |-> Opt2(ExplicitPort(x)), host_subcomponent |-> Opt2(HostSubcomponent(x))]
+\* the observation Level I derives from a value: every accessor of ImplOps!AccM, plus the five parts
+ObsM(x) == [f \in AccessorNames \cup {"val"} |->
+              IF f = "val" THEN [ok |-> <<x.scheme, x.netloc, x.path, x.query, x.fragment>>] ELSE AccM(f, x)]
 
 Init == /\ \E s \in SeedStrings : LET r == EncodeUrl("c", s) IN IsOK(r) /\ u = r.ok
         /\ last = [act |-> "seed"] /\ depth = 0
@@ -81,6 +75,14 @@ Inv_C03 == (C01_SchemeSane(O) /\ ~FirstSegColonRegion(u) /\ ~EmptyHostRegion(u) 
               /\ IsOK(r) /\ r.ok.scheme = u.scheme /\ PathEq(r.ok.path, u.path) /\ r.ok.query = u.query /\ r.ok.fragment = u.fragment
               /\ RawUser(r.ok) = RawUser(u) /\ RawPassword(r.ok) = RawPassword(u) /\ RawHost(r.ok) = RawHost(u)
               /\ PortOfM(r.ok) = PortOfM(u)
+\* C06: Level I's decoded accessors are the Level A decoding of the raw ones (query: outside the replacement-decoding region)
+Inv_C06 == /\ C06_User(O) /\ C06_Password(O) /\ C06_Path(O) /\ C06_PathSafe(O) /\ C06_Parts(O) /\ C06_Name(O)
+           /\ C06_Suffix(O) /\ C06_Fragment(O) /\ C06_QueryString(O)
+\* C13: accessor relations of the path algebra
+Inv_C13 == C13_PartsRecompose(O) /\ C13_NameIsLast(O) /\ C13_SuffixIsTail(O)
+\* C16 / C17 on every reachable value
+Inv_C16 == C16_LowerAscii(O) /\ (C16_Ipv6Canonical(O) \/ EmptyHostRegion(u))
+Inv_C17 == C17_PortFallback(O) /\ C17_Range(O) /\ (EmptyHostRegion(u) \/ C17_StrPort(O))
 \* ------------------------------------------------------------------ action property: frame conditions (C11)
 Frame == last.act \in {"seed"} \/ ~C11_Applies(last.act) \/ EmptyHostRegion(last.prev)
          \/ C11_Frame(last.act, last.args, ObsM(last.prev), O)
